@@ -16,7 +16,7 @@ def run(chk):
              ("sim40", dict(depth=40, MaxIdle=1, sim=6, simulate={"num": 6 if quick else 30, "depth": 41}))]
     if not quick:
         plans.append(("d3-idle0", dict(depth=3, MaxIdle=0)))
-    kinds = ("sort", "visual") if quick else ("sort", "visual", "batchsort", "batchvisual")
+    kinds = ("sort", "visual", "batchsort") if quick else ("sort", "visual", "batchsort", "batchvisual")
     shard_counts = (2, 3, 5, 8) if quick else (2, 3, 4, 5, 6, 7, 8)
     for name, kw in plans:
         r, c = tc.generate(chk, name, **kw)
